@@ -199,3 +199,16 @@ JOBS['C15'] = [
      'defs': {'quick': {'NL': 509, 'BIG': 1}, 'thorough': {'NL': 1021, 'BIG': 1}},
      'expect_reach': ['end', 'visit', 'changed'], 'timeout': {'quick': 280, 'thorough': 1700}, 'max_steps': 400000000},
 ]
+
+# ---------------------------------------------------------------- C06
+META['C06'] = {
+    'bounds': {'quick': 'buffers of 3 distinct lines x every current line x marks a,b on every line or unset x 18 address forms (N . $ mark +N -N .+N $-N /pat/ ?pat? N,M N;+M % mark,mark N,$ .,+N 0) with all digit values 0..4 x 12 commands (d, y x, pu x, p, =, ka, a, i, c, r file, rs y, @ z)',
+               'thorough': '4 lines, digits 0..5'},
+    'outside': '! filters and :r !cmd (need a child process); :so, tags; bare + and - (neatvi reads them as +0); default address of =; scripts of more than one command (the state before the command is arbitrary instead)',
+    'assumptions': ['reference: POSIX ex addressing without wrap-around search; after d the current line is the line after the deleted ones or the last line'],
+}
+JOBS['C06'] = [
+    {'name': 'line_commands', 'harness': 'c06_ex.c', 'units': 'ALL',
+     'defs': {'quick': {'NL': 3}, 'thorough': {'NL': 4}},
+     'expect_reach': ['end', 'applied', 'rejected'], 'timeout': {'quick': 280, 'thorough': 1700}},
+]
